@@ -2,10 +2,22 @@
 
 package engine
 
+import "github.com/els0r/goProbe/v4/pkg/types"
+
 // VerifSetNumProcessingUnits pins the number of query worker goroutines
 // (normally runtime.NumCPU()) and returns the previous value.
 func VerifSetNumProcessingUnits(n int) int {
 	old := numProcessingUnits
 	numProcessingUnits = n
 	return old
+}
+
+// VerifParseIfaceList forwards to the comma-separated interface list selection (C16).
+func VerifParseIfaceList(lister types.InterfaceLister, ifaceList string) ([]string, error) {
+	return parseIfaceListWithCommaSeparatedString(lister, ifaceList)
+}
+
+// VerifParseIfaceRegex forwards to the regular-expression interface selection (C16).
+func VerifParseIfaceRegex(lister types.InterfaceLister, ifaceRegExp string) ([]string, error) {
+	return parseIfaceListWithRegex(lister, ifaceRegExp)
 }
